@@ -127,6 +127,8 @@ def to_hashable(data: Any) -> Any:
         return tuple(map(to_hashable, data))
     elif isinstance(data, dict):
         return frozenset((k, to_hashable(v)) for k, v in data.items())
+    elif isinstance(data, bool):  # True == 1 for Python, they are distinct for JSON
+        return bool, data
     else:
         return data
 
